@@ -136,6 +136,10 @@ class Parser:
             tok = s[self.i:j + 1]
             self.i = j + 1
             return ("lit", tok, [])
+        m = re.match(r"(True|False)\b", s[self.i:])
+        if m:
+            self.i += m.end()
+            return ("lit", m.group(0), [])
         m = re.match(r"'[^']'", s[self.i:])
         if m:
             self.i += m.end()
@@ -259,7 +263,7 @@ def parse_spec(text):
                     pre = list(imp)
                     cur.reports.append((ps, B.And(*(pre + [Parser(f1, cur.aliases).parse()])), B.And(*(pre + [Parser(f2, cur.aliases).parse()])), ln))
                 else:
-                    ps, imp = expand_path(body, cur.aliases)
+                    ps, imp = expand_alias_rhs(body.strip(), cur.aliases)
                     form = B.And(*list(imp))
                     cur.reports.append((ps, form, form, ln))
             elif t.startswith("note"):
